@@ -22,6 +22,10 @@ from esrally.client import asynchronous as rally_async
 
 # set by the harness around AsyncExecutor.__call__: {"client": id, "task": name, "ordinal": n, ...}
 ISSUER = contextvars.ContextVar("verif_issuer", default=None)
+# the logical request (entry of Recorder.logical) on whose behalf the current task works. Set per logical request, so that tasks spawned by
+# a request (composite streams) keep pointing at THEIR request even when they outlive it (Composite does not cancel sibling streams when
+# the last gather fails) and the same client has already started its next request.
+LOGICAL = contextvars.ContextVar("verif_logical", default=None)
 
 
 class Outcome:
@@ -112,7 +116,13 @@ class SimES:
             "fail": None,
         }
         self.log.append(rec)
-        if issuer is not None:
+        entry = LOGICAL.get()
+        if entry is not None:
+            rec["logical"] = entry["ordinal"]
+            entry["wire"].append(rec["id"])
+            if "vt_finish" in entry:
+                rec["after_logical_request_finished"] = True
+        elif issuer is not None:
             issuer.setdefault("wire", []).append(rec["id"])
         rec["_outcome"] = self.script(rec)
         return rec
@@ -156,7 +166,11 @@ async def _send(self, conn):
     out = rec["_outcome"]
     if out.fail == "refused":
         if out.before_headers:
-            await asyncio.sleep(out.before_headers)
+            try:
+                await asyncio.sleep(out.before_headers)
+            except asyncio.CancelledError:
+                sim.end(rec, fail="cancelled-by-client")
+                raise
         sim.end(rec, fail="refused")
         raise aiohttp.ClientConnectionError("simulated: connection refused")
     self.response = self.response_class(
